@@ -140,6 +140,10 @@ def modifyIdx (site : String) (l : List α) (i : Nat) (f : α → α) : M (List 
   | some x => pure (l.set i (f x))
   | none => panicIdx site
 
+/-- the one error of the edit primitives that is not a Go panic: a `swapOrder` call outside the modelled path -/
+def swapOrderUnmodelled : String :=
+  "UNMODELLED swapOrder: oldID is not the last index (capacity-dependent path, defect F1)"
+
 namespace Table
 
 def new (name : String) (action : Action) : Table := { name, action }
@@ -159,7 +163,7 @@ def swapOrder (t : Table) (colName : String) (oldID newID : Nat) : M Table :=
       let cols := without.take newID ++ c :: without.drop newID
       let idx := t.colIdx.mapVals (fun v => if newID ≤ v && v < oldID then v + 1 else v)
       pure { t with cols := cols, colIdx := idx.set colName newID }
-    else .error "UNMODELLED swapOrder: oldID is not the last index (capacity-dependent path, defect F1)"
+    else .error swapOrderUnmodelled
 
 /-- the position step of `AddColumn` (after the column has been appended / replaced at index `id`) -/
 def positionStep (t : Table) (name : String) (id : Nat) : M Table :=
